@@ -1,6 +1,8 @@
 #![allow(dead_code, clippy::all)]
 mod c02;
 mod c03;
+mod c07;
+mod c08;
 mod c09;
 mod c14;
 mod c15;
@@ -61,6 +63,8 @@ fn main() {
     let code = match ctx.id.as_str() {
         "C02" => c02::run(&ctx),
         "C03" => c03::run(&ctx),
+        "C07" => c07::run(&ctx),
+        "C08" => c08::run(&ctx),
         "C09" => c09::run(&ctx),
         "C14" => c14::run(&ctx),
         "C15" => c15::run(&ctx),
@@ -74,6 +78,8 @@ fn replay(id: &str, v: &serde_json::Value) -> i32 {
     match id {
         "C02" => c02::replay(v),
         "C03" => c03::replay(v),
+        "C07" => c07::replay(v),
+        "C08" => c08::replay(v),
         "C09" => c09::replay(v),
         "C14" => c14::replay(v),
         "C15" => c15::replay(v),
